@@ -381,6 +381,7 @@ func (s *sender) framesToSend(rto bool, startIndex int) int {
 // owning Reliable's close transition may call it, after rejecting producers.
 func (s *sender) Close() error {
 	if s.closed.CompareAndSwap(false, true) {
+		verifYield("sender.Close.elected")
 		s.RetransmitTicker.Stop()
 		close(s.sendQueue)
 		close(s.prioritySendQueue)
